@@ -269,6 +269,11 @@ def run(tier, seed):
                 viol.append({"world": "big%d" % i, "sizes": [big, newsize], "flags": hl, "why": "; ".join(why), "klass": None})
             shutil.rmtree(base, ignore_errors=True)
         sc.env.clear(); sc.env.update(env_old)
+        import biglinks
+        for vi in (range(1) if tier == "quick" else range(8)):
+            bname, bf = biglinks.run_variant(sc, seed + 17 * vi, vi + 2)
+            for x in bf:
+                viol.append({"world": "biglinks-%d" % vi, "variant": bname, "why": x, "klass": None})
         # (88672a3) a group of 2..4 names whose old and new version agree in size and time stamp (--checksum / --ignore-times); the update
         # of ONE name fails (its working-file name is taken by a directory): every other name must hold the source's bytes afterwards, the
         # failure must be visible, and the failed name keeps what it had.  (3b1f2c2) a pass that cannot restore a link is an error.
